@@ -4,7 +4,7 @@
 From Coq Require Import List Arith Bool NArith.
 From Conductor Require Import Model.Loader Model.Planner Model.Exec Model.RunCase
   Proofs.ExecInv Proofs.ExecTheorems Proofs.ExecMain Proofs.PlannerInv Proofs.PlannerExact Proofs.PlannerOrder Proofs.Compose Proofs.ComposeExec Proofs.ComposeOrder.
-From Conductor Require Import Gen.Generated Proofs.GenTie.
+From Conductor Require Import Gen.Generated Proofs.GenTieExec.
 Import ListNotations.
 
 (* [trace s] lists the events newest first.  If operation x is started at some point of the run,
